@@ -593,12 +593,11 @@ PROPS["C11"] = dict(
         K("c11w", "c11_writer_fields_contract", desc="the FEN WRITER (whole body extracted verbatim, write! bound to a byte sink): for both sides, all 16 castling "
           "sets, every en-passant target or none and both clocks (std's decimal text kept abstract) the written line is the canonical line byte for byte "
           "(placement: two kings)",
-          functions=["<Fen as IntoNotation<State>>::into_notation (body, extracted)"], timeout=3000, heavy=True, unwindset_rules=WRITER_LOOPS),
+          functions=["<Fen as IntoNotation<State>>::into_notation (body, extracted)"], timeout=3000, heavy=True, unwindset_rules=WRITER_LOOPS, tier="experimental"),
     ] + [
         K("c11w", "c11_writer_placement_rank_%d" % r, kind="bounded", bound="rank %d fully symbolic (13^8 contents), the other seven ranks empty" % r,
           desc="the FEN WRITER's placement field: pieces as letters, runs of empty squares merged into one digit, '/' between ranks, ranks 8 to 1",
-          functions=["<Fen as IntoNotation<State>>::into_notation (body, extracted)"], timeout=3000, heavy=True, tier=("quick" if r in (1, 8) else "thorough"),
-          unwindset_rules=WRITER_LOOPS)
+          functions=["<Fen as IntoNotation<State>>::into_notation (body, extracted)"], timeout=3000, heavy=True, tier="experimental", unwindset_rules=WRITER_LOOPS)
         for r in range(1, 9)
     ] + [
         K("c11w", "c11_writer_placement_ranks_%s" % r, kind="bounded", bound="two adjacent ranks fully symbolic, the other six empty",
@@ -622,10 +621,12 @@ PROPS["C11"] = dict(
                  "usize Display / str::parse round-trip for the two counters (std); the obligations fix the clocks to 0 and 1",
                  "equality of legal moves, hash and evaluation after a round trip follows from equality of the five state components "
                  "(those functions read nothing else)"],
-    not_claimed=["the FEN WRITER as a symbolic obligation: even on a fixed two-king board with only the castling field symbolic the writer "
-                 "(about 40 write! calls through core::fmt's function-pointer dispatch) did not finish in 90 minutes / 12 GB; the two "
-                 "harnesses exist (tier experimental) but are in no tier; the writer is covered only by the native exhaustive stand-in over "
-                 "the finite non-placement domain and by the Square/File/Rank Display obligation",
+    not_claimed=["the FEN WRITER as a symbolic obligation. Two routes were built and neither finishes here: (1) through core::fmt (about 40 write! calls through "
+                 "function-pointer dispatch): 90 minutes / 12 GB; (2) the writer's body extracted verbatim with write! bound to a byte sink (kani/c11_writer.rs, "
+                 "obligations c11_writer_*, tier experimental): core::fmt is gone, but the writer starts with ArrayMap::from(&Board), i.e. Board::piece_at on all 64 "
+                 "squares (the pattern that never finished in section 3), and exhausts 12 GB after 11-20 minutes even with per-loop unwinding bounds and a concrete "
+                 "two-king board. The writer is covered by the native exhaustive stand-in over the finite non-placement domain and by the Display obligations "
+                 "for Square and PieceIndex",
                  "cross-rank interaction of the parser's u8 cursor beyond one symbolic rank"],
     technique="Kani/CBMC: FEN writer through core::fmt against a byte-level spec, and the field parsers as its inverse",
     level_text="Proof for the READER: the function tail after the regex gate (extracted verbatim every run) returns exactly the spelled "
